@@ -14,7 +14,7 @@
 -/
 import NngModel.Base.Bytes
 import NngModel.Spec.Queues
-import NngModel.Generated.Consts
+import NngModel.Generated.C18
 
 namespace Nng.Msgq
 open Nng.QSpec (Msg Ev)
